@@ -275,8 +275,8 @@ class NumpyModel(types.ModuleType):
 
     def __getattribute__(self, n):
         v = types.ModuleType.__getattribute__(self, n)
-        if n.startswith("_") or not callable(v) or isinstance(v, type):
-            return v
+        if n.startswith("_") or not isinstance(v, (types.MethodType, types.FunctionType)):
+            return v            # only plain methods are wrapped (ufunc objects such as np.multiply keep their .reduce)
         if types.ModuleType.__getattribute__(self, "_real") is None:
             return v
         # the numpy shim: numpy arrays are MUTABLE -- `a += b` changes the object every alias sees (jax arrays are immutable,
